@@ -370,7 +370,19 @@ def delimited_flags(dv: DecoderView):
                 failed = {a.split(" ")[0] for a, tv in fs if (a.endswith("!= -1") and not tv) or (a.endswith("== -1") and tv)}
                 failed_kinds = set().union(*[kinds.get(x, set()) for x in failed]) if failed else set()
                 if not ("next" in failed_kinds and ({"trailer", "end"} & failed_kinds)):
-                    ok = False
+                    # ... or it is the initial value where the next-frame search failed, overridden later by True where the trailer's closing
+                    # SOH was found (the shape `flag = next != -1` ... `if end != -1: flag = True` written with constants)
+                    later_true = False
+                    for m in nodes:
+                        if m is not n and isinstance(m.ast.value, ast.Constant) and m.ast.value.value is True and dv.cfg.reaches(n.id, m.id, exc=False):
+                            fm = set()
+                            for t2, lab2 in dv.cfg.guards(m.id, exc=False):
+                                fm |= facts(t2, lab2 == "true")
+                            ok_names = {a.split(" ")[0] for a, tv in fm if (a.endswith("!= -1") and tv) or (a.endswith("== -1") and not tv)}
+                            if any({"end", "trailer"} & kinds.get(x, set()) for x in ok_names):
+                                later_true = True
+                    if not ("next" in failed_kinds and later_true):
+                        ok = False
             else:
                 ok = False
         if ok and positive:
